@@ -137,10 +137,11 @@ func buildPosTable() {
 
 // host spellings as an operator may write them: carbon hashes the string as written (case, a trailing dot and all)
 var dnsHosts = []string{"carbon-a", "carbon-b.example.com", "graphite01", "a", "b", "carbon-a.example.com", "zz-top", "10.0.0.1", "10.0.0.2", "192.168.1.10", "localhost",
+	strings.Repeat("very-long-label.", 7) + "example.com", strings.Repeat("a", 63) + "." + strings.Repeat("b", 63) + "." + strings.Repeat("c", 63) + ".example", // (DNS allows 253)
 	"Carbon-A", "GRAPHITE01", "carbon-b.example.com.", "localhost.", "Relay-East", "relay-east", "CamelCase.Example.COM", "host_1", "xn--caf-dma.example"}
 var loopHosts = []string{"127.0.0.1", "127.0.0.2", "127.0.10.1", "127.1.1.1", "127.0.0.10", "localhost", "127.9.9.9"}
 var numericLoopHosts = []string{"127.0.0.1", "127.0.0.2", "127.0.10.1", "127.1.1.1", "127.0.0.10", "127.9.9.9"}
-var insts = []string{"", "", "a", "b", "c", "1", "cache-2", "A"}
+var insts = []string{"", "", "a", "b", "c", "1", "cache-2", "A", "instance-with-a-rather-long-descriptive-name-0123456789-0123456789-0123456789-0123456789-0123456789-0123456789-0123456789-x"}
 
 type destSpec struct {
 	host, port, inst string
